@@ -195,7 +195,7 @@ def c05(run):
     if run.quick():
         consts = {"MaxEdits": 3, "MaxPrior": 1, "Cfgs": '"quick"'}
     else:
-        consts = {"MaxEdits": 4, "MaxPrior": 2, "Cfgs": '"all"'}
+        consts = {"MaxEdits": 4, "MaxPrior": 1, "Cfgs": '"all"'}
     tlc, s = run_tlc_replay(run, "MC_Memo", "MC_Memo.tla",
                             dict(spec="Spec", constants=consts, invariants=["MemoTransparent", "Emit", "EmitBs"]),
                             "C05", workers=4, threads=8, timeout=7000)
